@@ -1,6 +1,6 @@
 //! 2-3 real nodes wired in-process. Per node: a real `SwarmDriver` from `NetworkBuilder::build_node` (never run;
 //! its two command channels are polled through the `driver` hook and every command is handed to the real
-//! `handle_local_cmd` — so the record store, the replication fetcher and `try_interval_replication` are the real
+//! `handle_local_cmd` / (for `SendResponse`) `handle_network_cmd` — so the record store, the replication fetcher and `try_interval_replication` are the real
 //! ones), the `Network` handle that `build_node` returned, and a real `Node` (`VerifNode`) over that handle.
 //! The harness is the transport: `NetworkSwarmCmd::SendRequest` becomes a wire message that an op line later
 //! delivers, duplicates or drops.
@@ -181,7 +181,12 @@ impl Sim {
                             log.netgets.push(format!("N{k}"));
                             let _ = sender.send(Err(GetRecordError::RecordNotFound));
                         }
-                        NetworkSwarmCmd::SendResponse { .. } => log.other.push("sendresponse".into()),
+                        cmd @ NetworkSwarmCmd::SendResponse { .. } => {
+                            // the real `handle_network_cmd`: a `MsgResponder::FromSelf` response goes through its oneshot
+                            if let Err(e) = hook::handle_network_cmd(&mut n.driver, cmd) {
+                                log.other.push(format!("neterr:{}", short_err(&e)));
+                            }
+                        }
                         other => log.other.push(format!("?net:{}", first_word(&format!("{other:?}")))),
                     }
                 }
@@ -190,10 +195,8 @@ impl Sim {
                     match ev {
                         NetworkEvent::KeysToFetchForReplication(keys) => {
                             log.sched.push(keys.clone());
-                            // `Node::handle_network_event`, arm `KeysToFetchForReplication`
-                            if n.node.fetch_replication_keys_without_wait(keys).is_err() {
-                                log.other.push("fetcherr".into());
-                            }
+                            // the real `Node::handle_network_event` (arm `KeysToFetchForReplication`)
+                            n.node.handle_network_event(NetworkEvent::KeysToFetchForReplication(keys));
                         }
                         NetworkEvent::FailedToFetchHolders(set) => log.failed.extend(set),
                         other => log.other.push(format!("?ev:{}", first_word(&format!("{other:?}")))),
